@@ -16,7 +16,7 @@ CHECKS = [
              "(writes under the write lock), every function returns holding exactly what it held on entry, and all acquisitions respect one "
              "strict ranking of the locks, which excludes wait-for cycles. Which unexported helpers must be entered with a lock held is inferred by the translator and imposed as an obligation on every call site (only the exported Allocation.Close is declared in guards.txt). Teardown: Model/Teardown.v interleaves any number of AddPermission / "
              "AddChannelBind / Close calls and timer expiries at atomic-step granularity; for every step order accepted by orders_ok and EVERY "
-             "schedule nothing stops or resets a nil timer and every published entry has its timer; the step orders are extracted from the "
+             "schedule nothing stops or resets a nil timer and every published entry has its timer, no reachable state is a lock-up (some unfinished call is always unblocked) and every step of a runnable call decreases a measure, so all calls return (C18_no_lockup, C18_every_step_makes_progress, C18_all_calls_return); the step orders are extracted from the "
              "source each run and the model is compared with the real Manager/Allocation on forced schedules (threads parked inside the "
              "lifecycle callbacks, closers blocked on the lock, timers fired by the virtual clock).",
      "note": "Partial by nature: data-race freedom is proved as the lockset condition for the fields declared in translator/lockskel/guards.txt "
@@ -66,7 +66,10 @@ CHECKS = [
              "the documented class/method pairs, stream read loop progress and termination. Model/StunMsg.v is compared with pion/stun's "
              "decoder and with HandleRequest / Client.HandleInbound on thousands of mutated, extreme and random inputs per run; live UDP and "
              "stream listeners are fed the same inputs (arbitrarily segmented) followed by liveness probes from the same and another party, "
-             "with a real-time watchdog for spins.",
+             "with a real-time watchdog for spins. Well-formed requests that put the server into unusual states: the multi-allocation "
+             "RFC 6062 histories (duplicate Connect, foreign / unknown binds, id collisions, dial failures, expiries) are judged by "
+             "Check/C09TcpCheck.v - no request is left unanswered by a wedged manager - which is proved on every trace of Model/TcpRelay.v "
+             "(C09_tcp_requests_never_wedge_on_every_model_trace).",
      "note": "Partial by nature: code not modelled line by line (attribute getters inside handlers, logging, pion/stun internals beyond "
              "Decode, the Go runtime) is covered by the correspondence/liveness runs only, not by a theorem.",
      "technique": "Coq proof (checked-slice model, Panic unreachable) + differential correspondence against pion/stun Decode, server.HandleRequest and Client.HandleInbound, plus liveness probing"},
@@ -78,7 +81,9 @@ CHECKS = [
              "HandleInbound / Close) on a scripted socket under virtual time: response after each transmission on either side of each "
              "timer, write error at each transmission, Close at each point, concurrent transactions with interleaved responses. "
              "History level: the whole predicate evaluated on the observed traces (C12Check.holds) is proved to hold on every trace of the "
-             "model, for every RTO, write-outcome pattern and history with fresh transaction ids (C12_holds_on_every_model_trace).",
+             "model, for every RTO, write-outcome pattern and history with fresh transaction ids (C12_holds_on_every_model_trace). The forced "
+             "slow-write schedules (Close / a response / another transaction while a (re)transmission is inside the socket write, real time) "
+             "are judged on 'every call returned, table empty, no panic' (TestVerif_C12Slow; no theorem).",
      "note": "Trusted: Coq kernel, Go harness, testing/synctest timers. Timer-callback vs response serialisation by Client.mutexTrMap is "
              "modelled as atomic events (lock discipline is C18). Transaction ids assumed fresh.",
      "technique": "Coq proof (induction on the retransmission counter, closed-form schedule) + differential correspondence against client.go / internal/client/transaction.go"},
@@ -111,7 +116,7 @@ CHECKS = [
      "technique": "Coq proof (inductive invariants / step characterisation over all histories) + differential correspondence of Model/Relay.v against the real turn.Server under virtual time, property predicate evaluated on the observed traces"},
     {"property_id": "C03",
      "text": "Coq theorems: a non-authenticating request is a no-op answered by exactly one error (401/438 challenges), what acceptance implies (handler's key for username/realm, intact integrity, own nonce aged <= 60 minute ticks), non-owner no-op, nonce window lemmas; chk_C03 (credential descriptor vs. observed effect) on real traces with every kind of credential defect."
-             + " History level: chk_C03 is proved to hold on every trace of the model (owners as told by the lifecycle callbacks = the allocations' users across every step; every error answer leaves the state untouched).",
+             + " History level: chk_C03 is proved to hold on every trace of the model (owners as told by the lifecycle callbacks = the allocations' users across every step; every error answer leaves the state untouched). RFC 6062 part: on the multi-allocation TCP-relay histories a ConnectionBind succeeds only for the owner's user, only for an announced id, once, within 30 s, and a refused ConnectionBind changes nothing (Check/C03TcpCheck.v, TestVerif_C03TCP) - proved on every trace of Model/TcpRelay.v with fresh connection ids (C03_tcp_bind_authorisation_on_every_model_trace).",
      "note": RELAY_NOTE,
      "technique": "Coq proof (inductive invariants / step characterisation over all histories) + differential correspondence of Model/Relay.v against the real turn.Server under virtual time, property predicate evaluated on the observed traces"},
     {"property_id": "C04",
@@ -132,12 +137,12 @@ CHECKS = [
      "technique": "Coq proof (inductive invariants / step characterisation over all histories) + differential correspondence of Model/Relay.v against the real turn.Server under virtual time, property predicate evaluated on the observed traces"},
     {"property_id": "C07",
      "text": 'Coq theorems: successful CreatePermission/ChannelBind restart the full timeout (permission timeout also on ChannelBind), failed requests change nothing, expiry exact, rebind after expiry; chk_C07 recomputes permission/channel expiry from successes alone.'
-             + " History level (refinement): chk_C07 is proved to hold on every trace of the model - the reconstructed permission and channel tables agree key by key with the model's deadlines across every step.",
+             + " History level (refinement): chk_C07 is proved to hold on every trace of the model - the reconstructed permission and channel tables agree key by key with the model's deadlines across every step; and the checked predicate's second half, 'until then the entry always authorises relaying' (a present permission / binding forwards the datagram, exactly once), is proved on every model trace as well (C07_present_entries_authorise_relaying).",
      "note": RELAY_NOTE,
      "technique": "Coq proof (inductive invariants / step characterisation over all histories) + differential correspondence of Model/Relay.v against the real turn.Server under virtual time, property predicate evaluated on the observed traces"},
     {"property_id": "C08",
      "text": 'Coq theorems: bijection and range as an invariant of every reachable state, emitted numbers in range, conflicts rejected with no change, same binding refreshes, out-of-range rejected for all numbers; chk_C08 on real traces.'
-             + ' History level: chk_C08 - including "repeating an existing binding refreshes it": a binding exists exactly until one channel timeout after the last successful ChannelBind for it (the channel half of chk_C07) - is proved to hold on every trace of the model with positive timeouts.',
+             + ' History level: chk_C08 - including "repeating an existing binding refreshes it": a binding exists exactly until one channel timeout after the last successful ChannelBind for it (the channel half of chk_C07), and emission: a ChannelData toward the client carries a number bound, when the datagram arrived, to exactly the peer it came from (chk_C08_emit) - is proved to hold on every trace of the model with positive timeouts.',
      "note": RELAY_NOTE,
      "technique": "Coq proof (inductive invariants / step characterisation over all histories) + differential correspondence of Model/Relay.v against the real turn.Server under virtual time, property predicate evaluated on the observed traces"},
     {"property_id": "C15",
@@ -155,7 +160,9 @@ CHECKS = [
              "statement that for arbitrary bytes the read loop's output is a function of the stream alone, progress (>= 4 bytes per "
              "success), termination, garbage => error, and segmentation independence of the ConnectionBind reply parsing; the model "
              "(Model/Framer.v) is run against consumeSingleTURNFrame, STUNConn.ReadFrom over a scripted net.Conn and "
-             "TCPAllocation.BindConnection on thousands of frame sequences x segmentations each run.",
+             "TCPAllocation.BindConnection on thousands of frame sequences x segmentations each run; bulk streams (hundreds of frames, "
+             "maximum-size frames followed by coalesced ones, whole-stream / 64 KiB / 1600-byte reads) are too large to evaluate in Coq and "
+             "are compared with the frames written, which is what the theorem says the model returns for every segmentation.",
      "note": "Trusted: Coq kernel, Go harness, net.Conn.Read contract (segment list is the model's input), caller buffer large enough "
              "for a frame. Recursion depth of ReadFrom and memory are not modelled.",
      "technique": "Coq proof (induction over reads, monotonicity of the frame decision) + differential correspondence check against "
